@@ -191,6 +191,8 @@ func c16GraffitiFile(kind string) string {
 		return strings.Repeat("long graffiti ", 20)
 	case "client":
 		return "{{CLIENT}}\nvouch {{CLIENT}} {{SLOT}}\n"
+	case "allmarkers":
+		return "{{CLIENT}}/{{SLOT}}/{{VALIDATORINDEX}}\n{{CLIENT}}{{CLIENT}} {{SLOT}}\n"
 	case "nul":
 		return "\x00\x00\x00\x00\n\x00\n"
 	case "unterminated":
@@ -235,7 +237,7 @@ func c16NewGraffitiInst(ctx context.Context, first map[string]string) c16Instanc
 	}
 	in.s = s
 	if in.use != "call" {
-		in.proposer = c16NewGraffitiProposeInst(ctx, in.use, s)
+		in.proposer = c16NewGraffitiProposeInst(ctx, in.use, first["nodeclient"] == "absent", s)
 	}
 	return in
 }
@@ -270,11 +272,14 @@ func (in *c16GraffitiInst) Prepare(k int, sh map[string]string) {
 	default:
 		in.md.files[resolved] = c16GraffitiFile(sh["file"])
 	}
+	if in.proposer != nil {
+		in.proposer.provider.Prepare(sh)
+	}
 }
 
 func (in *c16GraffitiInst) Invoke(ctx context.Context, k int, sh map[string]string) c16Res {
 	if in.use != "call" {
-		return in.proposer.propose(ctx, k)
+		return in.proposer.propose(ctx, k, sh)
 	}
 	var last []byte
 	for i := 0; i < 8; i++ { // the line is picked at random: several draws
